@@ -170,6 +170,59 @@ def search(ctx):
     return None
 
 
+def exact_sign(p, d, depth=6):
+    """+1 / -1 if Bernstein subdivision (exact rationals) certifies a strict sign on the closed triangle within `depth` levels, else 0"""
+    quarters = [((F(1), F(0), F(0)), (F(1, 2), F(1, 2), F(0)), (F(1, 2), F(0), F(1, 2))),
+                ((F(0), F(1, 2), F(1, 2)), (F(1, 2), F(0), F(1, 2)), (F(1, 2), F(1, 2), F(0))),
+                ((F(1, 2), F(1, 2), F(0)), (F(0), F(1), F(0)), (F(0), F(1, 2), F(1, 2))),
+                ((F(1, 2), F(0), F(1, 2)), (F(0), F(1, 2), F(1, 2)), (F(0), F(0), F(1)))]
+    pieces = [((F(1), F(0), F(0)), (F(0), F(1), F(0)), (F(0), F(0), F(1)))]
+    signs = set()
+    for _ in range(depth):
+        nxt = []
+        for (A, B, C) in pieces:
+            net = blossom_net(p, d, A, B, C)
+            if all(x > 0 for x in net):
+                signs.add(1)
+            elif all(x < 0 for x in net):
+                signs.add(-1)
+            else:
+                for (a, b, c) in quarters:
+                    comb = lambda w: tuple(w[0] * A[k] + w[1] * B[k] + w[2] * C[k] for k in range(3))
+                    nxt.append((comb(a), comb(b), comb(c)))
+        pieces = nxt
+        if not pieces:
+            break
+    if pieces or len(signs) != 1:
+        return 0
+    return signs.pop()
+
+
+def blossom_net(p, d, A, B, C):
+    """control net of the restriction of the degree-d Bernstein polynomial p to the triangle with barycentric vertices A, B, C (exact)"""
+    def blossom(args):
+        # de Casteljau with a different barycentric argument per round
+        cur = {}
+        pos = 0
+        for k in range(d + 1):
+            for j in range(d + 1 - k):
+                cur[(j, k)] = p[pos]; pos += 1
+        deg = d
+        for w in args:
+            nxt = {}
+            for k in range(deg):
+                for j in range(deg - k):
+                    nxt[(j, k)] = w[0] * cur[(j, k)] + w[1] * cur[(j + 1, k)] + w[2] * cur[(j, k + 1)]
+            cur = nxt; deg -= 1
+        return cur[(0, 0)]
+    out = []
+    for k in range(d + 1):
+        for j in range(d + 1 - k):
+            i = d - j - k
+            out.append(blossom([A] * i + [B] * j + [C] * k))
+    return out
+
+
 def run(ctx):
     prove(ctx, DEPS)
     nt = lambda c: c["kind"] not in ("unsupported",)
@@ -186,8 +239,78 @@ def run(ctx):
     for c in nets:
         if c["d"] in (2, 3) and c["kind"] in ("lattice", "valid", "inverted", "collinear"):
             polys.append(c)
+    # polynomial_sign directly, on dyadic coefficient nets of degree 1..4 (all arithmetic of the subdivision exact): uniform
+    # signs, mixed signs, zeros at non-corner positions (the zero polynomial test must require ALL coefficients to vanish),
+    # zeros at corners, positive polynomials with a negative interior coefficient (need subdivision), undecidable nets
+    rng = ctx.rng
+    ps = []
+    for rep in range(12 if ctx.quick() else 150):
+        for d in (1, 2, 3, 4):
+            num = (d + 1) * (d + 2) // 2
+            corners = {0, d, num - 1}
+            fam = rng.choice(["pos", "neg", "mixed", "zero-noncorner", "zero-noncorner", "zero-corner", "all-zero", "dip", "dip"])
+            pos = [F(rng.randint(1, 16), 4) for _ in range(num)]
+            if fam == "pos":
+                p = pos
+            elif fam == "neg":
+                p = [-x for x in pos]
+            elif fam == "mixed":
+                p = [x * rng.choice([1, -1]) for x in pos]
+            elif fam == "all-zero":
+                p = [F(0)] * num
+            elif fam == "zero-corner":
+                p = list(pos); p[rng.choice(sorted(corners))] = F(0)
+            elif fam == "zero-noncorner":
+                p = list(pos)
+                free = [i for i in range(num) if i not in corners]
+                if not free:
+                    continue
+                for i in rng.sample(free, rng.randint(1, min(2, len(free)))):
+                    p[i] = F(0)
+                if rng.random() < 0.3:
+                    p = [-x for x in p]
+            else:
+                p = list(pos)
+                free = [i for i in range(num) if i not in corners]
+                if not free:
+                    continue
+                p[rng.choice(free)] = -F(rng.randint(1, 6), 8)
+            ps.append({"d": d, "p": p, "kind": fam})
+
     def coq_ps(c, obs):
+        t = "(%s, %d%%nat, " % (coq_list(c["p"]), c["d"])
+        if obs[0][0] == "exc":
+            return [t + "@None Z)"] if obs[0][1] == "ValueError" else None
+        if obs[0][0] == "malformed":
+            return None
+        return [t + "Some (%d)%%Z)" % int(obs[0][1])]
+
+    def judge_ps(c, op, cfg, raw):
+        """+1 / -1 must be the sign on a grid of the closed triangle; a net with all coefficients > 0 must give +1"""
+        if "exc" in raw:
+            return None if raw["exc"] == "ValueError" else "raised %s" % raw["exc"]
+        sg = int(dec_res(raw["ok"]))
+        if c["kind"] == "pos" and sg != 1:
+            return "all coefficients positive but sign %d" % sg
+        if c["kind"] == "neg" and sg != -1:
+            return "all coefficients negative but sign %d" % sg
+        vals = []
+        for i in range(0, 9):
+            for j in range(0, 9 - i):
+                s_, t_ = F(i, 8), F(j, 8)
+                vals.append(oq.tri_bernstein(c["p"], c["d"], 1 - s_ - t_, s_, t_))
+        if sg == 1 and min(vals) <= 0:
+            return "sign +1 reported but the polynomial is %r at a grid point" % float(min(vals))
+        if sg == -1 and max(vals) >= 0:
+            return "sign -1 reported but the polynomial is %r at a grid point" % float(max(vals))
+        if sg == 0 and c["kind"] in ("zero-noncorner", "dip") and (min(vals) > 0 or max(vals) < 0) and all(x != 0 for i, x in enumerate(c["p"]) if i in (0, c["d"], len(c["p"]) - 1)):
+            # a polynomial of one strict sign on the grid, with non-zero corners: "mixed / zero" is only right if it really changes sign;
+            # decide exactly with the verified criterion: subdivide the exact net until every piece is uniform
+            if exact_sign(c["p"], c["d"]) != 0:
+                return "sign 0 (mixed or zero) reported for a polynomial of strict sign %d on the closed triangle" % exact_sign(c["p"], c["d"])
         return None
+    correspond(ctx, "polynomial_sign", ps, [("hazmat.polynomial_sign", lambda c: [enc_arr([c["p"]]), c["d"]], val_out)],
+               coq_ps, HEADER, "chk_poly_sign", judge=judge_ps, configs=("pure",), nontrivial=lambda c: c["kind"] not in ("pos", "neg"))
     correspond(ctx, "Triangle_is_valid", nets, [("Triangle.is_valid", a, val_out)],
                coq_valid, HEADER, "chk_is_valid", judge=judge_valid, nontrivial=nt)
     return finish(ctx, "theorems: the Jacobian-polynomial tables (regenerated) give the Bernstein net of det J for all real nets; "
